@@ -230,7 +230,7 @@ def glob_list_events(rng, sc, lha, hdr, tier, ev):
         raise V.HarnessError("glob archive: %d members written, %d listed" % (len(ms), len(recs)))
     mm = _records(ms, recs, False)
     maxl = 3 if tier == "quick" else 4
-    lists = [[bytes(t)] for L in range(1, maxl + 1) for t in itertools.product(b"*?ab", repeat=L)]
+    lists = [[bytes(t)] for L in range(1, maxl + 1) for t in itertools.product(b"*?abd/", repeat=L)]
     for _ in range(60 if tier == "quick" else 1200):
         lists.append([bytes(rng.choice(b"**??ab/d") for _ in range(rng.randint(maxl + 1, 7)))])
     for _ in range(40 if tier == "quick" else 600):
